@@ -1,7 +1,8 @@
 (* C04 — transform of the training data reproduces the model's scores. Statements only. *)
 From Coq Require Import String ZArith List Bool.
 From XV Require Import Base.Scalar Base.Sum Base.Mat Model.Eof Model.Rot Model.FlagState Gen.T5flag Proofs.C01_proofs Proofs.C11_proofs
-  Proofs.FlagState_proofs Proofs.RotState_proofs Proofs.Flag_tie.
+  Proofs.FlagState_proofs Proofs.RotState_proofs Proofs.Flag_tie
+  Model.FitChain Proofs.FitChain_proofs Gen.T7chain Gen.T7pipe Proofs.Chain_tie.
 Import ListNotations.
 
 (* EOF-type models: X V_k = U_k diag(s_k), with the model's own sign convention *)
@@ -59,3 +60,42 @@ Theorem C04_flag_not_reset_refuted :
   fs_sorted _ s = true /\ fs_data _ s = [10; 30; 20] /\ reindex (fs_idx _ s) (fs_fresh _ s) = [30; 20; 10].
 Proof. exact no_reset_refuted. Qed.
 Print Assumptions C04_flag_not_reset_refuted.
+
+(* fitted stages chained (Model/FitChain.v): preprocessor -> PCA -> whitener of the cross-set models, preprocessor -> model
+   algorithm of the single-set models, and the seven transformers inside the Preprocessor. For ANY stages (whatever they
+   learn and however they transform): if every stage's fit_transform is fit followed by transform of the same data and
+   transform walks the stages in the order fit did, transform of the training data hands the model's algorithm exactly
+   what fit handed it - so whatever `alg` the model computes from it (scores = whitened data times singular vectors)
+   is reproduced *)
+Theorem C04_chain_training : forall (D S : Type) (stages : nat -> fstage D S) (A : Type) (alg : D -> A) (fo : list nat),
+  NoDup fo -> (forall i, In i fo -> fit_then_transform D S (stages i)) ->
+  forall x, alg (transform_run D S stages fo (fst (fit_run D S stages fo x)) x) = alg (snd (fit_run D S stages fo x)).
+Proof. exact model_transform_training. Qed.
+Print Assumptions C04_chain_training.
+
+(* the chains of the source are of that kind (regenerated on every run) *)
+Theorem C04_chain_orders_in_source :
+  (field_stages "X" "fit_transform" cross_fit_calls = ["preprocessor1"; "pca1"; "whitener1"] /\
+   field_stages "X" "transform" cross_transform_calls = ["preprocessor1"; "pca1"; "whitener1"] /\
+   field_stages "Y" "fit_transform" cross_fit_calls = ["preprocessor2"; "pca2"; "whitener2"] /\
+   field_stages "Y" "transform" cross_transform_calls = ["preprocessor2"; "pca2"; "whitener2"] /\
+   stage_count cross_fit_calls = 6 /\ stage_count cross_transform_calls = 6 /\
+   cross_augment_is_identity = true /\ forallb (fun c => snd c) cross_augmenting_classes = true)%string /\
+  (map fst preprocessor_fit_calls = declared_order /\
+   forallb (fun c => String.eqb (snd c) "fit_transform") preprocessor_fit_calls = true /\
+   preprocessor_transform_loops_over_declared_order = true)%string.
+Proof. exact (conj cross_chain preprocessor_chain). Qed.
+Print Assumptions C04_chain_orders_in_source.
+
+(* transform walking the stages in another order, and a fit_transform that is not fit-then-transform: refuted by computation *)
+Theorem C04_chain_other_order_refuted :
+  let st := fst (fit_run Z Z (zstages true) [0; 1] 5%Z) in
+  snd (fit_run Z Z (zstages true) [0; 1] 5%Z) = 20%Z /\ transform_run Z Z (zstages true) [1; 0] st 5%Z = 15%Z.
+Proof. exact other_order_refuted. Qed.
+Print Assumptions C04_chain_other_order_refuted.
+
+Theorem C04_chain_other_fit_transform_refuted :
+  let st := fst (fit_run Z Z (zstages false) [0; 1] 5%Z) in
+  snd (fit_run Z Z (zstages false) [0; 1] 5%Z) = 10%Z /\ transform_run Z Z (zstages false) [0; 1] st 5%Z = 20%Z.
+Proof. exact other_fit_transform_refuted. Qed.
+Print Assumptions C04_chain_other_fit_transform_refuted.
